@@ -19,7 +19,7 @@ SADDR = ("10.0.0.2", 4433)
 TESTS = os.path.join(os.environ.get("VERIF_REPO", "/repo"), "tests")
 
 INTERNAL_READS = ["_loss.congestion_window", "_loss.bytes_in_flight", "_close_at", "_state",
-                  "_cryptos[epoch].recv.is_valid()", "_loss._rtt_smoothed/_rtt_variance/_rtt_initial/max_ack_delay (base PTO)", "_probe_pending",
+                  "_cryptos[epoch].recv.is_valid() / .recv.secret (which key generation the receiver holds)", "_host_cids", "_loss._rtt_smoothed/_rtt_variance/_rtt_initial/max_ack_delay (base PTO)", "_probe_pending",
                   "_handshake_complete", "_handshake_confirmed", "_network_paths[0].is_validated"]
 
 DEFAULT_CFG = {"version": "v1", "cc": "reno", "suite": "", "alpn": ["hq"], "max_data": 1048576,
@@ -399,6 +399,13 @@ class Sim:
                     ep_ = {"initial": E.INITIAL, "handshake": E.HANDSHAKE, "0rtt": E.ZERO_RTT, "1rtt": E.ONE_RTT}[p["type"]]
                     cr = conn._cryptos.get(ep_) if p["type"] != "initial" else conn._cryptos_initial.get(p["ver"])
                     can = bool(cr and cr.recv.is_valid()) and conn._state.name not in ("CLOSING", "DRAINING", "TERMINATED")
+                    if can and p["type"] == "1rtt":
+                        # key phase: the receiver opens a packet of its current receive generation or of the next one
+                        gens = self.obs.dir[d["src"]].app
+                        rg = next((g for g, ks in enumerate(gens) if any(k.secret == cr.recv.secret for k in ks)), None)
+                        can = rg is not None and p["gen"] in (rg, rg + 1)
+                    if dst == "c" or p["type"] == "handshake":      # receive_datagram drops these when the CID is not (any longer) one of its own
+                        can = can and any(bytes(p["dcid"]) == h.cid for h in conn._host_cids)
                     self.ev("arr", ep=dst, dg=d["id"], idx=j, space=p["space"], type=p["type"], pn=p["pn"],
                             ackel=p["ackel"], haskeys=can, hc=bool(conn._handshake_complete), addr=self.addr_id(addr))
         _, r = self._guard(dst, "receive_datagram", conn.receive_datagram, raw, addr, now=self.t())
